@@ -31,7 +31,7 @@ BOUNDSCHECK_TIERS = ("thorough",)
 def REQUIRED(tier):
     return [f"op:{o}" for o in OPS] + ["regime:subrange_before_eof", "regime:>=3blocks", "regime:gulp<2*maxdelay", "regime:gulp>nsamps",
                                        "regime:last_block_shorter_than_maxdelay", "regime:maxdelay>nsamps/2", "tiling_checks", "gulp_independence_checks",
-                                       "spy:extract_tim", "spy:dedisperse", "regime:reader_with_history", "regime:nchans>32_not_multiple_of_32"]
+                                       "spy:extract_tim", "spy:dedisperse", "regime:reader_with_history", "regime:nchans>32_not_multiple_of_32", "held_result_checks"]
 
 
 def _cfg(nbits, N=97, nch=8, split=None, tsamp=1e-3):
@@ -272,10 +272,20 @@ def run_case(case, ctx):
                 ctx.violation(f"tiling:{tag}", f"kernel output intervals do not tile the output exactly once: {msg}; intervals {iv[:8]}", one)
                 continue
         # ---- gulp independence, bit for bit
+        held_before = data.tobytes()
         ref_inf = np.asarray(_call(fil, op, 10 * cfg["N"], start, nsamps, dm, ichan).data)
         ctx.count("gulp_independence_checks")
         if ref_inf.shape != data.shape or ref_inf.tobytes() != data.tobytes():
             ctx.violation(f"gulp-dependence:{tag}", f"{op} for gulp={gulp} differs bit-wise from the single-block result", one)
+            continue
+        # ---- a result that was handed out stays what it was while the same reader streams other ranges
+        try:
+            fil.collapse(gulp=max(1, nsamps // 3), start=max(0, start - 1), nsamps=max(1, nsamps - 1), quiet=True, description="v")
+        except Exception:  # noqa: BLE001
+            pass
+        ctx.count("held_result_checks")
+        if np.asarray(res.data).tobytes() != held_before or np.asarray(ref_inf).tobytes() != held_before:
+            ctx.violation(f"earlier-result-changed-by-later-call:{op}", f"the array returned by {op}(gulp={gulp},start={start},nsamps={nsamps}) changed when the same reader streamed another range afterwards", one)
             continue
         if ctx.evaluations % 400 == 1:
             ctx.sample({"cfg": cfg, "op": op, "gulp": gulp, "start": start, "nsamps": nsamps, "dm": dm, "maxdelay": maxdelay, "nblocks": nblocks,
